@@ -94,7 +94,7 @@ func floatOf2(d *D) int {
 }
 
 func c02(c *Ctx) {
-	maxLen := c.N(3, 4)
+	maxLen := c.N(4, 5)
 	c.Rule = fmt.Sprintf("exhaustive: arrays of 0..%d objects x every truth assignment of two boolean fields per element x %d filter shapes (AND/OR/default/chained/nested groups/nested filters/`$`-reading arguments) x 3 carriers of the array ([]any, []map[string]any, [N]any), plus single objects with the predicate true/false and arrays of primitives; random: filter queries from the grammar on random documents. Kept elements are identified by unique ids and compared with the model and with an oracle computed from the shape's truth function. Non-trivial = the array is non-empty; distinct by (query, data).", maxLen, len(shapesC02))
 	for n := 0; n <= maxLen; n++ {
 		for asg := 0; asg < 1<<(2*n); asg++ {
@@ -198,7 +198,7 @@ func c02(c *Ctx) {
 	c.RunEvalCases()
 
 	// random
-	n := c.N(4000, 120000)
+	n := c.N(12000, 200000)
 	g := &qgen{c: c}
 	made := 0
 	for made < n {
